@@ -39,3 +39,80 @@ Example prevote_ignores_other_fork :
   let st := mkSt [] [] [] [] 1 in
   determine_prevote e st 2 = Ok (mkGV 4 3%N) /\ ancb (e_tree e) 2 4 = false.
 Proof. vm_compute. split; reflexivity. Qed.
+
+(* ---- the pending authority change ("capped at a pending authority change") ---- *)
+(* the vote determinePreVote starts from, before the cap *)
+Definition uncapped_prevote (e : env) (st : vstate) (primary : nat) : gvote :=
+  let best := mkGV (e_best e) (number e (e_best e)) in
+  match lookup primary (s_pv st) with
+  | Some g => if (number e (s_head st) <=? gv_num g)%N then g else best
+  | None => best
+  end.
+
+Lemma header_by_number_spec e n b : header_by_number e n = Some b ->
+  anc (e_tree e) b (e_best e) /\ number e b = n.
+Proof.
+  unfold header_by_number. intro H. apply find_some in H. destruct H as [I E].
+  apply N.eqb_eq in E. split; [exact I|exact E].
+Qed.
+
+(* determinePreVote never answers a block above the pending change; when it caps, the answer is
+   the block of the change height ON THE BEST CHAIN (GetHeaderByNumber) *)
+Lemma prevote_capped e st primary g nc :
+  e_next_change e = Some nc -> determine_prevote e st primary = Ok g ->
+  (gv_num g <= nc)%N /\
+  (g = uncapped_prevote e st primary \/
+   ((nc < gv_num (uncapped_prevote e st primary))%N /\ gv_num g = nc /\
+    gv_num g = number e (gv_block g) /\ anc (e_tree e) (gv_block g) (e_best e))).
+Proof.
+  intros NC. unfold determine_prevote. fold (uncapped_prevote e st primary). rewrite NC.
+  set (v := uncapped_prevote e st primary).
+  destruct (N.ltb_spec nc (gv_num v)) as [L|L].
+  - destruct (header_by_number e nc) as [b|] eqn:H; [|discriminate].
+    intro X; injection X as <-. apply header_by_number_spec in H. destruct H as [A E]. cbn.
+    split; [rewrite E; apply N.le_refl|]. right. repeat split; auto.
+  - intro X; injection X as <-. split; [exact L|now left].
+Qed.
+
+Lemma ancestor_by_number_spec e b n a : ancestor_by_number e b n = Some a ->
+  anc (e_tree e) a b /\ (number e a <= n)%N.
+Proof.
+  unfold ancestor_by_number. intro H. apply find_some in H. destruct H as [I E].
+  apply N.leb_le in E. split; [exact I|exact E].
+Qed.
+
+(* determinePreCommit (repaired), for EVERY state: whatever it answers is never above the pending
+   change, and when it caps the answer is an ancestor of the pre-voted block *)
+Lemma precommit_capped e st g nc :
+  e_next_change e = Some nc -> determine_precommit true e st = Ok g ->
+  (gv_num g <= nc)%N /\
+  exists pvb, prevoted_block e st = Ok pvb /\
+    (g = pvb \/ ((nc < gv_num pvb)%N /\ anc (e_tree e) (gv_block g) (gv_block pvb) /\
+                 gv_num g = number e (gv_block g))).
+Proof.
+  intros NC. unfold determine_precommit. destruct (prevoted_block e st) as [pvb| | |]; cbn [obind]; try discriminate.
+  rewrite NC. destruct (N.ltb_spec nc (gv_num pvb)) as [L|L].
+  - destruct (ancestor_by_number e (gv_block pvb) nc) as [b|] eqn:H; [|discriminate].
+    intro X; injection X as <-. apply ancestor_by_number_spec in H. destruct H as [A E]. cbn.
+    split; [exact E|]. exists pvb. split; [reflexivity|]. right. auto.
+  - intro X; injection X as <-. split; [exact L|]. exists pvb. auto.
+Qed.
+
+(* the capped prevote need not be an ancestor of the primary's block: the cap is resolved on the
+   best chain (tree 0-1-2 best chain, 0-3-4 the primary's fork; primary 1 prevoted block 4;
+   change at height 1): the answer is block 1, not block 3 *)
+Example prevote_cap_other_fork :
+  let e := mkEnv [0;1;0;3] 4 2 (Some 1%N) 0 in
+  let st := mkSt [(1, mkGV 4 2%N)] [] [] [] 0 in
+  determine_prevote e st 1 = Ok (mkGV 1 1%N) /\ ancb (e_tree e) 1 4 = false /\ ancb (e_tree e) 3 4 = true.
+Proof. vm_compute. repeat split; reflexivity. Qed.
+
+(* finalisation is NOT capped: 4 voters prevote block 2 on the chain 0-1-2 with a change pending at
+   height 1; the node (voter 2) precommits block 1, the three others precommit block 2: the node
+   finalises block 2, above the change *)
+Example finalisation_not_capped :
+  let e := mkEnv [0;1] 4 2 (Some 1%N) 2 in
+  let st := mkSt [(0, mkGV 2 2%N); (1, mkGV 2 2%N); (2, mkGV 2 2%N); (3, mkGV 2 2%N)]
+                 [(0, mkGV 2 2%N); (1, mkGV 2 2%N); (2, mkGV 1 1%N); (3, mkGV 2 2%N)] [] [] 0 in
+  determine_precommit true e st = Ok (mkGV 1 1%N) /\ fst (attempt_to_finalize e st) = Ok (Some 2).
+Proof. vm_compute. split; reflexivity. Qed.
